@@ -325,7 +325,7 @@ pub fn main(args: &Args) {
         }
         json!({"family": "asm", "events": out.finish(), "cases": cases.len(), "layout_mismatch": layout_mismatch})
     });
-    println!("{}", summary);
+    println!("\n{}", summary);
 }
 
 /// Re-run the cases of a replay file (`asm` events: the recorded `src` is assembled again).
@@ -347,5 +347,5 @@ pub fn replay(args: &Args) {
         }
         out.finish()
     });
-    println!("{}", json!({"family": "asm", "events": lines}));
+    println!("\n{}", json!({"family": "asm", "events": lines}));
 }
